@@ -202,7 +202,16 @@ func (s *Solver) Check(pc []*Term, extra *Term, hard bool, vars []*Term) (Result
 			s.send("(check-sat-using qfbv)")
 		}
 		s.in.Flush()
-		res = strings.TrimSpace(s.readLine())
+		if s.timeout > 0 {
+			// try-for is not always honoured inside bit-blasting: a watchdog ends a solver that overruns; the
+			// query then counts as undecided (the path is reported inconclusive, never as explored)
+			cmd := s.cmd
+			wd := time.AfterFunc(time.Duration(s.timeout+15000)*time.Millisecond, func() { _ = cmd.Process.Kill() })
+			res = strings.TrimSpace(s.readLine())
+			wd.Stop()
+		} else {
+			res = strings.TrimSpace(s.readLine())
+		}
 	}
 	var model map[string]uint64
 	r := Unknown
